@@ -88,6 +88,19 @@ type subscription struct {
 	ch      chan message
 }
 
+// subscriptionBufferSize is the number of VAAs that may be queued for a subscriber that is
+// momentarily slower than the publisher. A subscriber that falls further behind is disconnected.
+const subscriptionBufferSize = 1024
+
+func (sub *subscription) matches(v *vaa.VAA) bool {
+	for _, fi := range sub.filters {
+		if fi.chainId == v.EmitterChain && fi.emitterAddr == v.EmitterAddress {
+			return true
+		}
+	}
+	return false
+}
+
 func subscriptionId() string {
 	return uuid.New().String()
 }
@@ -113,10 +126,8 @@ func (s *spyServer) Publish(vaaBytes []byte) error {
 
 	var v *vaa.VAA
 
-	for _, sub := range s.subs {
-		if len(sub.filters) == 0 {
-			sub.ch <- message{vaaBytes: vaaBytes}
-		} else {
+	for id, sub := range s.subs {
+		if len(sub.filters) != 0 {
 			if v == nil {
 				var err error
 				v, err = vaa.Unmarshal(vaaBytes)
@@ -125,13 +136,19 @@ func (s *spyServer) Publish(vaaBytes []byte) error {
 				}
 			}
 
-			for _, fi := range sub.filters {
-				if fi.chainId == v.EmitterChain && fi.emitterAddr == v.EmitterAddress {
-					sub.ch <- message{vaaBytes: vaaBytes}
-					// one copy per subscriber, also when several filter entries match
-					break
-				}
+			if !sub.matches(v) {
+				continue
 			}
+		}
+
+		// Never wait for a subscriber while holding subsMu: a client that stopped reading would
+		// block every other subscriber as well as the registration and removal of subscriptions.
+		select {
+		case sub.ch <- message{vaaBytes: vaaBytes}:
+		default:
+			// The subscriber's buffer is full: end its stream instead of silently dropping VAAs.
+			delete(s.subs, id)
+			close(sub.ch)
 		}
 	}
 
@@ -161,7 +178,7 @@ func (s *spyServer) SubscribeSignedVAA(req *spyv1.SubscribeSignedVAARequest, res
 	s.subsMu.Lock()
 	id := subscriptionId()
 	sub := &subscription{
-		ch:      make(chan message, 1),
+		ch:      make(chan message, subscriptionBufferSize),
 		filters: fi,
 	}
 	s.subs[id] = sub
@@ -177,7 +194,10 @@ func (s *spyServer) SubscribeSignedVAA(req *spyv1.SubscribeSignedVAARequest, res
 		select {
 		case <-resp.Context().Done():
 			return resp.Context().Err()
-		case msg := <-sub.ch:
+		case msg, ok := <-sub.ch:
+			if !ok {
+				return status.Error(codes.ResourceExhausted, "subscriber is too slow, subscription closed")
+			}
 			if err := resp.Send(&spyv1.SubscribeSignedVAAResponse{
 				VaaBytes: msg.vaaBytes,
 			}); err != nil {
